@@ -215,7 +215,7 @@ func withCBSite(w *load.World, ls *lockset.Result, c *core.Collector, f *ssa.Fun
 			if !ok || ld.Op != token.MUL {
 				continue
 			}
-			if x, ok := fieldOf(ld.X, "scrapped"); ok && x == v {
+			if x, ok := fieldOf(ld.X, "scrapped"); ok && wcCanon(x) == wcCanon(v) {
 				s := 1
 				if neg {
 					s = 0
@@ -231,6 +231,7 @@ func withCBSite(w *load.World, ls *lockset.Result, c *core.Collector, f *ssa.Fun
 	type miss struct{ what string }
 	var walk func(v ssa.Value, p wcPos, events func(ssa.Value) *wcEvents, seen map[*ssa.Phi]bool, hit func(v ssa.Value)) *miss
 	walk = func(v ssa.Value, p wcPos, events func(ssa.Value) *wcEvents, seen map[*ssa.Phi]bool, hit func(v ssa.Value)) *miss {
+		v = wcCanon(v)
 		if fresh(v) {
 			return nil
 		}
@@ -383,7 +384,7 @@ func wcLockEvents(ls *lockset.Result, fn *ssa.Function, v ssa.Value, depth int) 
 	}
 	isMu := func(a ssa.Value) bool {
 		fa, ok := a.(*ssa.FieldAddr)
-		if !ok || fa.X != v {
+		if !ok || wcCanon(fa.X) != wcCanon(v) {
 			return false
 		}
 		st := ssax.StructOf(fa.X.Type())
@@ -413,7 +414,7 @@ func wcLockEvents(ls *lockset.Result, fn *ssa.Function, v ssa.Value, depth int) 
 			}
 			pi := -1
 			for i, a := range call.Call.Args {
-				if a == v && i < len(g.Params) {
+				if wcCanon(a) == wcCanon(v) && i < len(g.Params) {
 					pi = i
 				}
 			}
@@ -453,4 +454,25 @@ func wcLockEvents(ls *lockset.Result, fn *ssa.Function, v ssa.Value, depth int) 
 	// already write-held by this transaction: the element is in its writtenCaches table
 	trueEdges(func(c ssa.Value) bool { return wcWrittenOK(c, 0) })
 	return ev
+}
+
+// wcCanon: a variable that a literal captures lives in a cell; every read of it is a separate load.
+// When the cell is assigned once, all those loads are the value that was stored.
+func wcCanon(v ssa.Value) ssa.Value {
+	for i := 0; i < 4; i++ {
+		ld, ok := v.(*ssa.UnOp)
+		if !ok || ld.Op != token.MUL {
+			return v
+		}
+		cell, ok := ld.X.(*ssa.Alloc)
+		if !ok {
+			return v
+		}
+		sv := ssax.SingleStore(cell)
+		if sv == nil {
+			return v
+		}
+		v = sv
+	}
+	return v
 }
